@@ -32,6 +32,8 @@ def main():
         name = sys.argv[sys.argv.index('--name') + 1]
     confirm = '--no-confirm' not in sys.argv
     wt = '/tmp/seed/' + pid
+    if '--wt' in sys.argv:
+        wt = sys.argv[sys.argv.index('--wt') + 1]
     out = "/tmp/seed/%s-out" % pid
     if "--out" in sys.argv:
         out = sys.argv[sys.argv.index("--out") + 1]
@@ -76,6 +78,29 @@ def main():
         if os.path.isfile(p) and os.path.getsize(p) < 400000 and not os.access(p, os.X_OK) or fn.endswith(('.sh', '.c', '.md', '.diff')):
             if os.path.isfile(p) and os.path.getsize(p) < 400000:
                 shutil.copy(p, os.path.join(dst, fn))
+    if '--scratch' in sys.argv:
+        # detection measured on a scratch copy of the sources (never touches /repo): every property's rules
+        rc, o = sh('python3 tools/selftest.py --only sd-%s -v' % name, cwd=VERIF, timeout=3000)
+        own = re.findall(r'^\s+(C\d\d): (R-\S+) \[(.*?)\] (\S+)', o, flags=re.M)
+        status = re.search(r'^sd-\S+\s+(\S+)', o, flags=re.M)
+        caught = {}
+        if own:
+            caught[pid] = {'exit': 1, 'failed': ['%s [%s] %s' % f[1:] for f in own][:8], 'broken': []}
+        elif status and status.group(1) == 'BROKEN':
+            caught[pid] = {'exit': 2, 'failed': [], 'broken': re.findall(r'ANALYSIS-BROKEN .*', o)[:3]}
+        meta = {
+            'id': name, 'property': pid,
+            'source': 'independent sub-agent, given only the property text and a scratch worktree',
+            'needs_to_manifest': _section(os.path.join(dst, 'notes.md')),
+            'ran': ran, 'confirmed': {k: v for k, v in res.items() if k != 'demo_output_with_change'},
+            'demo_output_with_change': res.get('demo_output_with_change', ''),
+            'caught_by': caught, 'caught': bool(caught.get(pid)) and caught[pid]['exit'] == 1,
+            'first_pass': {'status': status.group(1) if status else '?', 'failed': caught.get(pid, {}).get('failed', [])},
+            'caught_by_other_property': [],
+        }
+        json.dump(meta, open(os.path.join(dst, 'meta.json'), 'w'), indent=1)
+        print('own-property check:', status.group(1) if status else '?', caught.get(pid, {}).get('failed', [])[:3])
+        return 0
     # run the checks against the change
     rc, o = sh('git -C /repo status --porcelain --untracked-files=no')
     if o.strip():
